@@ -119,6 +119,52 @@ pub fn run<W: Write>(_seed: u64, thorough: bool, w: &mut W) {
             distinct_total += b;
         }
     }
+    // every periodic pattern of three sizes out of 0..=6, each on a fresh thread, 256 rounds: the
+    // draws at each place of the pattern are analysed on their own (a defect that depends on how
+    // the calls before it left some per-thread state - seed C19-g: how many spare bits a pool still
+    // holds - hits the same place of the pattern every round)
+    for (label, f) in [("Lut", dyn_draws as fn(usize, usize) -> Vec<Tab>), ("LutN", stat_draws as fn(usize, usize) -> Vec<Tab>)] {
+        let pats: Vec<[usize; 3]> = (0..343).map(|q| [q % 7, (q / 7) % 7, q / 49]).collect();
+        let res: Vec<(usize, usize, Vec<String>)> = std::thread::scope(|s| {
+            let hs: Vec<_> = pats
+                .chunks(22)
+                .map(|chunk| {
+                    s.spawn(move || {
+                        let mut tot = 0usize;
+                        let mut dis = 0usize;
+                        let mut fl: Vec<String> = Vec::new();
+                        for pat in chunk {
+                            let pat = *pat;
+                            // a fresh thread per pattern: fresh per-thread state
+                            let per: Vec<Vec<Tab>> = std::thread::spawn(move || {
+                                let mut per: Vec<Vec<Tab>> = vec![Vec::new(); 3];
+                                for _ in 0..256 {
+                                    for (j, n) in pat.iter().enumerate() {
+                                        per[j].extend(f(*n, 1));
+                                    }
+                                }
+                                per
+                            })
+                            .join()
+                            .unwrap();
+                            for (j, ds) in per.iter().enumerate() {
+                                let (a, b) = analyse(&format!("{} pattern {:?} place {}", label, pat, j), pat[j], ds, &mut fl);
+                                tot += a;
+                                dis += b;
+                            }
+                        }
+                        (tot, dis, fl)
+                    })
+                })
+                .collect();
+            hs.into_iter().map(|h| h.join().unwrap()).collect()
+        });
+        for (a, b, fl) in res {
+            total += a;
+            distinct_total += b;
+            fails.extend(fl);
+        }
+    }
     for f in &fails {
         writeln!(w, "FAIL random :: {}", f).unwrap();
     }
